@@ -5,6 +5,7 @@ package c12
 // Totality and consistency of ct.RawLogEntryFromLeaf / ct.LogEntryFromLeaf.
 
 import (
+	"time"
 	"bytes"
 	"fmt"
 
@@ -13,6 +14,7 @@ import (
 
 	ct "github.com/google/certificate-transparency-go"
 	"github.com/google/certificate-transparency-go/x509"
+	"verif/ref/pki"
 )
 
 type refDecoded struct {
@@ -362,6 +364,16 @@ func (c *checker) entryDecoders() {
 			add(fmt.Sprintf("minimal x509 leaf (cert %x), short extra_data %x", cert, b), ml, b, false)
 			add(fmt.Sprintf("minimal precert leaf (tbs %x), short extra_data %x", cert, b), mp, b, false)
 		}
+	}
+	// a certificate only the lenient parser accepts (serial number with a superfluous leading zero), alone and followed
+	// by further bytes inside the same ASN.1Cert field: an entry handed back carries the certificate bytes of the leaf
+	laxCert := pki.Build(pki.Tmpl{Serial: []byte{0x12, 0x34}, SerialContent: []byte{0x00, 0x12, 0x34}, Issuer: w.ca.T.Subject, Subject: pki.CN("c12 lenient-only"),
+		NotBefore: pki.T0, NotAfter: time.Date(2025, 6, 1, 12, 0, 0, 0, time.UTC), Key: pki.LoadKey("p256-3")}, w.ca.T.Key)
+	for _, tail := range [][]byte{nil, {0}, {0x30, 0}, laxCert.DER[:7]} {
+		ml := must(ct6962.AppendMerkleTreeLeaf(nil, ct6962.MerkleTreeLeaf{Entry: ct6962.TimestampedEntry{Timestamp: 77, SignedEntry: ct6962.SignedEntry{Cert: append(append([]byte{}, laxCert.DER...), tail...)}}}))
+		add(fmt.Sprintf("x509 leaf: lenient-only certificate followed by %d further bytes", len(tail)), ml, x.extra, false)
+		ms := must(ct6962.AppendMerkleTreeLeaf(nil, ct6962.MerkleTreeLeaf{Entry: ct6962.TimestampedEntry{Timestamp: 78, SignedEntry: ct6962.SignedEntry{Cert: append(append([]byte{}, w.subX509.chain[0]...), tail...)}}}))
+		add(fmt.Sprintf("x509 leaf: honest certificate followed by %d further bytes", len(tail)), ms, x.extra, len(tail) == 0)
 	}
 	// well-formed shapes: entry type x certificate x extensions length x chain length
 	for _, pre := range []bool{false, true} {
